@@ -6,6 +6,7 @@ use crate::vtgen::*;
 use crate::walk::*;
 use proptest::prelude::*;
 use rsdd::builder::sdd::{CompressionSddBuilder, SddBuilder};
+use rsdd::builder::BottomUpBuilder;
 use rsdd::repr::SddPtr;
 use serde::{Deserialize, Serialize};
 use std::collections::{BTreeSet, HashMap};
@@ -222,10 +223,87 @@ impl SubCheckT for Hist {
     }
 }
 
+// ---------------------------------------------------------------------------
+// histories over more variables than the truth-table oracle holds
+// ---------------------------------------------------------------------------
+
+pub struct BigHist;
+
+struct SddOps<'a>(&'a CompressionSddBuilder<'a>);
+
+impl<'a> crate::bighist::BigOps<SddPtr<'a>> for SddOps<'a> {
+    fn lit(&self, v: usize, p: bool) -> SddPtr<'a> {
+        self.0.var(rsdd::repr::VarLabel::new_usize(v), p)
+    }
+    fn not(&self, a: SddPtr<'a>) -> SddPtr<'a> {
+        self.0.negate(a)
+    }
+    fn and(&self, a: SddPtr<'a>, b: SddPtr<'a>) -> SddPtr<'a> {
+        self.0.and(a, b)
+    }
+    fn or(&self, a: SddPtr<'a>, b: SddPtr<'a>) -> SddPtr<'a> {
+        self.0.or(a, b)
+    }
+    fn xor(&self, a: SddPtr<'a>, b: SddPtr<'a>) -> SddPtr<'a> {
+        self.0.xor(a, b)
+    }
+    fn iff(&self, a: SddPtr<'a>, b: SddPtr<'a>) -> SddPtr<'a> {
+        self.0.iff(a, b)
+    }
+    fn ite(&self, a: SddPtr<'a>, b: SddPtr<'a>, c: SddPtr<'a>) -> SddPtr<'a> {
+        self.0.ite(a, b, c)
+    }
+    fn cond(&self, a: SddPtr<'a>, v: usize, val: bool) -> SddPtr<'a> {
+        self.0.condition(a, rsdd::repr::VarLabel::new_usize(v), val)
+    }
+    fn exists(&self, a: SddPtr<'a>, v: usize) -> SddPtr<'a> {
+        self.0.exists(a, rsdd::repr::VarLabel::new_usize(v))
+    }
+    fn compose(&self, a: SddPtr<'a>, v: usize, g: SddPtr<'a>) -> SddPtr<'a> {
+        self.0.compose(a, rsdd::repr::VarLabel::new_usize(v), g)
+    }
+    fn eval(&self, a: SddPtr<'a>, asg: &[bool]) -> bool {
+        crate::big::sdd_eval(a, asg)
+    }
+    fn size(&self, a: SddPtr<'a>) -> usize {
+        sdd_nodes(a).len()
+    }
+}
+
+pub fn run_big_hist(case: &crate::bighist::BigHistCase, st: &mut Stats) -> CaseResult {
+    let n = (case.nv as usize).clamp(10, 14);
+    let vt = VtreeCase {
+        k: n as u8,
+        keys: (0..n as u64).map(|i| (splitmix(case.seed ^ (i + 1)) >> 48) as u16).collect(),
+        kind: [3u8, 2, 0][(case.shape % 3) as usize],
+        splits: (0..n as u64).map(|i| (splitmix(case.seed ^ (i + 77)) >> 48) as u16).collect(),
+        stride: 1,
+        offset: 0,
+    };
+    let b = make_builder(&vt, true, case.table_cap);
+    st.bump(&format!("bighist.vtree_kind.{}", vt.kind));
+    crate::bighist::run_big_hist(&SddOps(&b), case, n, "C03", true, st)
+}
+
+impl SubCheckT for BigHist {
+    type Case = crate::bighist::BigHistCase;
+    const NAME: &'static str = "histories_on_many_variables";
+    const RULE: &'static str = "compressing builder over 10..14 variables (random / balanced / right-linear vtree, random leaf order, unique table default or 1..64 slots); a pool grown from parity-like seeds by 8..24 operations (and, or, xor, iff, ite, not, condition, and up to five exists / compose), every entry paired with a node of an expression DAG that records how it was made; after every operation, and for the whole pool at the end, the SDD read by the harness's own walk and the harness's evaluation of the DAG agree on 20 sampled assignments. Non-trivial: a diagram of more than 64 nodes took part";
+    fn cases(tier: Tier) -> u32 {
+        tier.pick(600, 12_000)
+    }
+    fn strategy(_tier: Tier) -> BoxedStrategy<crate::bighist::BigHistCase> {
+        crate::bighist::big_hist_strategy(14, 24)
+    }
+    fn run(case: &crate::bighist::BigHistCase, st: &mut Stats) -> CaseResult {
+        run_big_hist(case, st)
+    }
+}
+
 pub fn property() -> Property {
     Property {
         id: "C03",
-        subs: vec![sub::<Hist>()],
+        subs: vec![sub::<Hist>(), sub::<BigHist>()],
         fuzz: vec![FuzzSpec { target: "sdd_ops", runs: 6000, max_len: 300 }],
         assumptions: vec![
             "functions of <= 8 variables (in one case of six the vtree has 9..120 leaves, of which <= 8 are used), <= 40 operations per history",
